@@ -85,6 +85,37 @@ def with_mode_env(f, rec, modeval, spill=0):
     return args
 
 
+
+def filter_reaches_accumulator(ctx, f, trait_prefix, in_scope, rule='filter-reaches-accumulator', methods=(('update_batch', 3), ('convert_to_state', 2))):
+    """At every engine call site of GroupsAccumulator::update_batch / convert_to_state the opt_filter argument is a value computed by the
+    caller, never the constant None: the FILTER (WHERE ..) of an aggregate must reach the accumulator on every aggregation strategy
+    (hash, skip-partial conversion, ...), otherwise rows the filter rejects are counted on that strategy only."""
+    import protocov
+    n = 0
+    for m, idx in methods:
+        callee = trait_prefix + m
+        for c in sorted(set(f.callers.get(callee, []))):
+            if not in_scope(c):
+                continue
+            for i in range(len(f.fn_index[c])):
+                rec = f.fn(c, i)
+                if 'bb' not in rec:
+                    continue
+                dm, mr = protocov._defs(rec)
+                for b in rec['bb']:
+                    t = b['t']
+                    if t[0] == 'call' and not b.get('cu') and callee in (t[1].get('def'), t[1].get('res')) and idx < len(t[2]):
+                        n += 1
+                        k = protocov._klass(dm, mr, t[2][idx])
+                        inst = '%s -> %s' % (c, m)
+                        ctx.analysed_fns.add(c)
+                        if k != 'value':
+                            ctx.fail(rule, inst, ctx.loc(rec, t[5] if len(t) > 5 else None), 'the opt_filter argument of %s is the constant %s here: an aggregate with FILTER (WHERE ..) counts '
+                                     'the rows its filter rejects whenever this code path is taken' % (m, k), key='%s|%s' % (rule, inst))
+                        else:
+                            ctx.ok(rule, inst, sample={'caller': c, 'method': m} if n <= 6 else None)
+    return n
+
 def run(ctx):
     f = ctx.facts
     tabs = mode_tables(ctx, f)
@@ -179,5 +210,17 @@ def run(ctx):
                 else:
                     ctx.ok('mode-dispatch', inst, sample={'fn': d, 'mode': mv.name, 'spilling': bool(spill), 'calls': sorted(called & (set(a) | set(b_)))})
     ctx.floor('mode-dispatch', 'dispatch functions', nd, 3)
+    # the FILTER clause reaches the accumulator at every engine call site
+    nf = filter_reaches_accumulator(ctx, f, 'datafusion_expr_common::groups_accumulator::GroupsAccumulator::',
+                                    lambda c: (c[1:] if c.startswith('<') else c).startswith('datafusion_physical_plan'))
+    ctx.floor('filter-reaches-accumulator', 'engine call sites of GroupsAccumulator::update_batch / convert_to_state', nf, 5)
+    import common
+    st = ctx.st
+    probe = common.Ctx(ctx.pid, ctx.tier, st, st, {})
+    probe.known = []
+    filter_reaches_accumulator(probe, st, 'dfscan_selftest::aggs::GroupsAcc::', lambda c: True, rule='st-filter')
+    keys = [v['key'] for v in probe.viol]
+    ctx.selftest('filter rule reports convert_to_state(.., None) (bad_convert) and accepts the forwarded filter (good_convert)',
+                 any('bad_convert' in k for k in keys) and not any('good_convert' in k for k in keys))
     # selftest: expected() vs a wrong table
     ctx.selftest('stage-semantics check rejects Final declared as Raw input', expected('Final') != ('Raw', 'Final'))
